@@ -1,0 +1,13 @@
+// SPDX-License-Identifier: GPL-3.0-or-later
+
+//go:build !verif
+// +build !verif
+
+// Package verifhook provides named hook points for external verification harnesses.
+//
+// Without the "verif" build tag, as in every regular build, At is an empty function and
+// the hook points have no effect.
+package verifhook
+
+// At marks a hook point. It does nothing unless built with the "verif" build tag.
+func At(string) {}
